@@ -80,3 +80,8 @@ claim("C08", "model_checking", E1,
       "The real estimators driven directly: diagonal exactness on Gaussians (d 1..6(12), condition numbers up to 1e12, every 3-/4-element draw multiset of a point lattice), low-rank whitening on rank-k perturbed covariances, every window of 3 draws x 3 gradients over the 8-value alphabet {0,1,-1,1e-300,1e300,NaN,+-inf} (524288 windows per diagonal mode, 46656 (262144) low-rank windows, all 64 initialiser inputs): scales finite and positive, log-determinant finite, invalid estimates keep the previous value bit-identically; closed loop fisher_distance after the last update.",
       "Trusted: exact Gaussian gradients; low-rank whitening judged to 2e-3 (gamma = 1e-5 regularisation) with eigval_cutoff 1 for rank > 0 (with the default cut-off only diagonal structure is exactly representable); the transformation mean is not covered by the property and only counted.",
       "value-alphabet exhaustive window enumeration + bounded-exhaustive draw-set enumeration on the real estimators", "4/C08")
+
+claim("C18", "fault_enumeration", E1,
+      "DiagMclmc / LowRankMclmc through the public API with a delegating Math wrapper: configuration alphabet (dims, three trajectory kinds, step size x decoherence length x subsample frequency, dynamic step size on/off, switch fractions 0/0.3/1) plus a density fault at every evaluation index of the first three draws and at two successive evaluations: unit momentum after every ESH update and refresh, every update equals the closed-form ESH step and its kinetic-energy change, step counts max(1, round(f L / eps)) (more only under retry, integrated time = base time), divergent draws keep the position bit-identically and refresh the momentum, the Euclidean->Microcanonical switch happens once at the configured draw with a fresh normalised momentum.",
+      "Trusted: esh_reference (hyperbolic closed form) for delta < 30; real ChaCha8 stream with a fixed seed; 2-7 dimensional diagonal Gaussian.",
+      "configuration alphabet x exhaustive fault-position enumeration on real chains observed at the Math seam", "4/C18")
